@@ -31,12 +31,12 @@ def all_strings(maxsym):
             if l == 0:
                 out.append(((), ""))
                 continue
-            for mask in range(1 << (l - 1)):
-                toks = [w[0]]
-                for i in range(1, l):
-                    if mask >> (i - 1) & 1:
-                        toks.append(".")
+            for mask in range(1 << l):          # a dot may follow every symbol, also the last one
+                toks = []
+                for i in range(l):
                     toks.append(w[i])
+                    if mask >> i & 1:
+                        toks.append(".")
                 out.append((tuple(toks), "".join(toks)))
     return out
 
